@@ -519,6 +519,9 @@ class RsInterp:
         self.rel = prog.file_for(file_suffix)
         self.suffix = file_suffix
 
+    def mcall_hook(self, recv: Any, m: str, args: list, env: dict, e: dict) -> Any:
+        return NotImplemented
+
     def call(self, qual: str, args: list) -> Any:
         fn = self.prog.fns.get((self.rel, qual))
         if fn is None:
@@ -636,6 +639,8 @@ class RsInterp:
             return bool(ok and (e.get("guard") is None or self.ev(e["guard"], env2)))
         if k == "unary":
             v = self.ev(e["e"], env)
+            if e["op"] == "*" and isinstance(v, tuple) and v and v[0] == "some":
+                return v[1]
             return {"-": lambda: -v, "!": lambda: (not v) if isinstance(v, bool) else ~v, "*": lambda: v}[e["op"]]()
         if k == "binary":
             op = e["op"]
@@ -659,6 +664,8 @@ class RsInterp:
                 v &= (1 << bits) - 1
                 if ty.startswith("i") and v >> (bits - 1):
                     v -= 1 << bits
+            elif hasattr(v, "bits") and ty in _INT_TYPES and ty.startswith("u"):
+                v = v & ((1 << min(_INT_TYPES[ty], 40)) - 1)
             return v
         if k == "tuple":
             return tuple(self.ev(x, env) for x in e["elems"])
@@ -684,6 +691,9 @@ class RsInterp:
             recv = self.ev(e["recv"], env)
             args = [self.ev(a, env) for a in e["args"]]
             m = e["m"]
+            hooked = self.mcall_hook(recv, m, args, env, e)
+            if hooked is not NotImplemented:
+                return hooked
             if m in ("wrapping_add", "saturating_add"):
                 return recv + args[0]
             if m == "wrapping_sub":
